@@ -747,6 +747,54 @@ pub fn c14_lines(input: &str, well_formed: bool) -> Vec<String> {
     fails
 }
 
+/// byte span of the name of a `{$...}` / `(*$...*)` directive: the run of letters, digits, `_` and - for switch lists
+/// such as `{$r+,q-}` - `+`, `-`, `,` directly after the `$` (written from the property text)
+pub fn directive_name_span(c: &str) -> (usize, usize) {
+    let a = if c.starts_with("{$") {
+        2
+    } else if c.starts_with("(*$") {
+        3
+    } else {
+        return (0, 0);
+    };
+    let n = c.as_bytes()[a..].iter().take_while(|b| b.is_ascii_alphanumeric() || matches!(**b, b'_' | b'+' | b'-' | b',')).count();
+    (a, a + n)
+}
+
+/// C01, second clause: a case difference may occur only inside a word that can be a keyword or inside a directive name
+pub fn c01_case_positions(input: &str, out: &str) -> Vec<String> {
+    let toks = lex_offsets(input);
+    // per non-blank character of the input: may its case change?
+    let mut may = Vec::new();
+    let mut chars = Vec::new();
+    for t in &toks {
+        let c0 = t.start + t.ws_len;
+        let c = &input[c0..t.end];
+        let span = match t.kind {
+            RawTokenType::Keyword(_) | RawTokenType::IdentifierOrKeyword(_) => (0, c.len()),
+            RawTokenType::CompilerDirective | RawTokenType::ConditionalDirective(_) => directive_name_span(c),
+            _ => (0, 0),
+        };
+        for (i, ch) in c.char_indices() {
+            if !is_blank_char(ch) {
+                chars.push(ch);
+                may.push(i >= span.0 && i < span.1);
+            }
+        }
+        // blanks inside the leading whitespace never count
+    }
+    let outc: Vec<char> = out.chars().filter(|c| !is_blank_char(*c)).collect();
+    if outc.len() != chars.len() {
+        return vec![]; // the first clause reports this
+    }
+    for (k, (a, b)) in chars.iter().zip(outc.iter()).enumerate() {
+        if a != b && !may[k] {
+            return vec![format!("c01: character {:?} became {:?} outside keyword words and directive names", a, b)];
+        }
+    }
+    vec![]
+}
+
 /// C02: re-scan the output and compare kinds/text with the input's tokens under the documented normalisations
 pub fn c02_rescan(input: &str, cfg: &Cfg) -> Vec<String> {
     let mut fails = vec![];
@@ -772,11 +820,26 @@ pub fn c02_rescan(input: &str, cfg: &Cfg) -> Vec<String> {
         let ca = a.get_content();
         let cb = b.get_content();
         let ok = match ka {
-            RawTokenType::Keyword(_) | RawTokenType::IdentifierOrKeyword(_) => ca.eq_ignore_ascii_case(cb),
-            RawTokenType::CompilerDirective | RawTokenType::ConditionalDirective(_) => ca.eq_ignore_ascii_case(cb),
+            // lower-cased as a whole, or untouched (verbatim regions, words that are not keywords where they stand)
+            RawTokenType::Keyword(_) | RawTokenType::IdentifierOrKeyword(_) => cb == ca || cb == ca.to_ascii_lowercase(),
+            // only the directive name (for switch lists: the list) may change, and only to upper case
+            RawTokenType::CompilerDirective | RawTokenType::ConditionalDirective(_) => {
+                let (a, b) = directive_name_span(ca);
+                cb == ca
+                    || (cb.len() == ca.len()
+                        && cb.is_char_boundary(a)
+                        && cb.is_char_boundary(b)
+                        && cb[..a] == ca[..a]
+                        && cb[b..] == ca[b..]
+                        && cb[a..b] == ca[a..b].to_ascii_uppercase())
+            }
             RawTokenType::Comment(k) if k.is_singleline() => {
-                let strip = |s: &str| s.chars().filter(|c| !is_blank_char(*c)).collect::<String>();
-                strip(ca) == strip(cb)
+                // trailing blanks trimmed; one space inserted after `//` or `///` when the text starts right there
+                let pre = if ca.starts_with("///") { 3 } else { 2 };
+                let spaced = format!("{} {}", &ca[..pre], &ca[pre..]);
+                let trims: [&dyn Fn(&str) -> String; 2] =
+                    [&|s: &str| s.trim_end_matches(|c: char| c.is_ascii_whitespace()).to_string(), &|s: &str| s.trim_end_matches(is_blank_char).to_string()];
+                cb == ca || cb == spaced || trims.iter().any(|t| cb == t(ca) || cb == t(&spaced))
             }
             RawTokenType::TextLiteral(TextLiteralKind::MultiLine) => {
                 ca == cb || (mls_value(ca).is_some() && mls_value(ca).map(|x| x.0) == mls_value(cb).map(|x| x.0))
@@ -808,7 +871,7 @@ pub fn c05_structure(input: &str, cfg: &Cfg, marks: &[crate::gen::Mark], texts: 
     let mut fails = vec![];
     // comments (the layouts of this family only insert `//` comments at line ends) are not generated tokens: the marks
     // are matched against the non-comment tokens
-    let is_comment = |t: &OTok| matches!(t.kind, RawTokenType::Comment(_));
+    let is_comment = |t: &OTok| matches!(t.kind, RawTokenType::Comment(_) | RawTokenType::ConditionalDirective(_) | RawTokenType::CompilerDirective);
     let ti_all = lex_offsets(input);
     if ti_all.iter().filter(|t| !is_comment(t)).count() != marks.len() + 1 {
         return fails; // generated tokens do not map one-to-one to lexer tokens: not a case for this oracle
@@ -834,7 +897,7 @@ pub fn c05_structure(input: &str, cfg: &Cfg, marks: &[crate::gen::Mark], texts: 
     let keep: Vec<usize> = (0..to_all.len()).filter(|&i| !is_comment(&to_all[i])).collect();
     let first: Vec<bool> = keep.iter().map(|&i| first_all[i]).collect();
     let indent: Vec<usize> = keep.iter().map(|&i| indent_all[i]).collect();
-    let openers = ["begin", "repeat", "try", "except", "finally", "else", "case", "const", "var", "type", "resourcestring", "private", "protected", "public", "published"];
+    let openers = ["begin", "repeat", "try", "except", "finally", "else", "case", "const", "var", "type", "resourcestring", "private", "protected", "public", "published", "class"];
     for (i, m) in marks.iter().enumerate() {
         let d = match m {
             Mark::Start(d) | Mark::Closer(d) => *d,
